@@ -272,7 +272,31 @@ def discr_type_of_switch(body, bi):
     return None
 
 
-def constraints_for(ix, body, sym, block):
+def _bool_flag_defs(body, discr_op):
+    """For a switch operand that is (a copy of) a bool local assigned only constants in >= 2 places:
+    {True: [def blocks], False: [def blocks]}; otherwise None."""
+    p = op_place(discr_op)
+    if p is None or not mir.is_local(p):
+        return None
+    l = p["l"]
+    for _ in range(3):
+        sd = body.single_def(l)
+        if sd and sd[2].get("k") == "use" and op_place(sd[2]["a"]) is not None and mir.is_local(op_place(sd[2]["a"])):
+            l = op_place(sd[2]["a"])["l"]
+        else:
+            break
+    if 1 <= l <= body.arg_count or l in body.names:
+        return None  # a variable of the program (`pvs`), not a temporary of the lowering
+    defs = body.defs().get(l, [])
+    if len(defs) < 2 or any(d[2].get("k") != "use" or const_int(d[2]["a"]) not in (0, 1) for d in defs):
+        return None
+    out = {True: [], False: []}
+    for d in defs:
+        out[bool(const_int(d[2]["a"]))].append(d[0])
+    return out
+
+
+def constraints_for(ix, body, sym, block, _depth=0):
     """Constraints that hold on every path reaching `block`: for each dominating switch of which only some
     arms lead to the block: (text of the switched expression, frozenset of value names, switch block)."""
     out = []
@@ -309,6 +333,25 @@ def constraints_for(ix, body, sym, block):
                     want |= by_val.get(bool(bv) != neg, set())
             out.append((mir.expr_str(fe), frozenset(want), fblock, fe))
             continue
+        # a bool flag set to constants at the end of a compound test (`matches!(x, P if g)`, `let ok = a && b`):
+        # passing the edge for value v means one of the `flag = v` blocks was executed, so whatever holds at all of
+        # them holds here
+        fd = _bool_flag_defs(body, t["discr"]) if t.get("discr_ty") == "bool" and _depth < 4 else None
+        if fd is not None:
+            want = set()
+            for v in leading:
+                bools = [x for x in (0, 1) if x not in [a[0] for a in t["arms"]]] if v == "otherwise" else [v]
+                want |= {bool(bv) for bv in bools}
+            if len(want) == 1:
+                blocks = fd[next(iter(want))]
+                common = None
+                for db in blocks:
+                    cs = constraints_for(ix, body, sym, db, _depth + 1)
+                    common = cs if common is None else [c for c in common if any(c[0] == c2[0] and c[1] == c2[1] for c2 in cs)]
+                for c in common or []:
+                    if not any(c[0] == o[0] and c[1] == o[1] for o in out):
+                        out.append(c)
+                continue
         names = None
         ty = discr_type_of_switch(body, d)
         if ty:
